@@ -27,6 +27,7 @@ import (
 
 	"github.com/skycoin/skycoin/src/api"
 	"github.com/skycoin/skycoin/src/cipher"
+	"github.com/skycoin/skycoin/src/cipher/bip32"
 	"github.com/skycoin/skycoin/src/coin"
 	"github.com/skycoin/skycoin/src/daemon"
 	"github.com/skycoin/skycoin/src/kvstorage"
@@ -79,6 +80,26 @@ func startNode(dir string, atGenesis bool) *world {
 	es, err := w1.GetEntries()
 	must(err)
 	owner := es[0]
+	// the other wallet types, each with an address that will hold coins: bip44, xpub (no secret keys at all), collection
+	w3, err := ws.CreateWallet("w3.wlt", wallet.Options{Type: wallet.WalletTypeBip44, Seed: "abandon abandon abandon abandon abandon abandon abandon abandon abandon abandon abandon about",
+		SeedPassphrase: fmt.Sprint(rng.Int63()), Label: "three", GenerateN: 2})
+	must(err)
+	mk, err := bip32.NewMasterKey([]byte(fmt.Sprintf("xpub master key seed %020d", rng.Int63())))
+	must(err)
+	w4, err := ws.CreateWallet("w4.wlt", wallet.Options{Type: wallet.WalletTypeXPub, XPub: mk.PublicKey().String(), Label: "four", GenerateN: 2})
+	must(err)
+	_, csec, _ := cipher.GenerateDeterministicKeyPair([]byte(fmt.Sprintf("collection-%d", rng.Int63())))
+	w5, err := ws.CreateWallet("w5.wlt", wallet.Options{Type: wallet.WalletTypeCollection, Label: "five", CollectionPrivateKeys: []cipher.SecKey{csec}})
+	must(err)
+	// the wallet the huge-count probes are aimed at: never touched by the random requests, so always unencrypted
+	_, err = ws.CreateWallet("wp.wlt", wallet.Options{Type: wallet.WalletTypeDeterministic, Seed: seed + " probe", Label: "probe", GenerateN: 1})
+	must(err)
+	var funded []cipher.Address
+	for _, w := range []wallet.Wallet{w3, w4, w5} {
+		as, err := w.GetAddresses()
+		must(err)
+		funded = append(funded, as[0].(cipher.Address))
+	}
 
 	vcfg := visor.NewConfig()
 	vcfg.BlockchainPubkey = pub
@@ -94,7 +115,10 @@ func startNode(dir string, atGenesis bool) *world {
 	v, err := visor.New(vcfg, db, ws)
 	must(err)
 	must(v.Init())
-	wd := &world{seed: seed, wallets: []string{"w1.wlt", "w2.wlt"}}
+	wd := &world{seed: seed, wallets: []string{"w1.wlt", "w2.wlt", "w3.wlt", "w4.wlt", "w5.wlt"}}
+	for _, a := range funded {
+		wd.addrs = append(wd.addrs, a.String())
+	}
 	for _, e := range es {
 		wd.addrs = append(wd.addrs, e.SkycoinAddress().String())
 	}
@@ -124,6 +148,12 @@ func startNode(dir string, atGenesis bool) *world {
 			}
 		}
 		txn := spend(in, head.Head.Time, owner.SkycoinAddress())
+		if i < len(funded) {
+			txn.Out[1].Address = funded[i] // the small output goes to the bip44 / xpub / collection wallet
+			txn.Sigs = nil
+			txn.SignInputs([]cipher.SecKey{owner.Secret})
+			_ = txn.UpdateHeader()
+		}
 		b, err := v.CreateBlockFromTxns(coin.Transactions{txn}, now)
 		must(err)
 		must(v.ExecuteSignedBlock(coin.SignedBlock{Block: b, Sig: cipher.MustSignHash(b.HashHeader(), sec)}))
@@ -280,7 +310,9 @@ func main() {
 	if len(os.Args) < 5 {
 		log.Fatal("usage: apirec <out.ndjson> <seed> <count> <routes.json>")
 	}
-	logging.Disable()
+	if os.Getenv("VERIF_LOG") == "" {
+		logging.Disable()
+	}
 	seed, _ := strconv.ParseInt(os.Args[2], 10, 64)
 	count, _ := strconv.Atoi(os.Args[3])
 	rng = rand.New(rand.NewSource(seed))
@@ -367,6 +399,11 @@ func main() {
 				}
 			}
 		}
+		// well-formed spends from every wallet type (deterministic, encrypted, bip44, xpub, collection), signed or not
+		spendReq := !scenario && rng.Intn(30) == 0
+		if spendReq {
+			method, uri = "POST", "/api/v1/wallet/transaction"
+		}
 		names := append([]string{}, likely[uri]...)
 		for k := 0; k < rng.Intn(3); k++ {
 			names = append(names, paramNames[rng.Intn(len(paramNames))])
@@ -386,7 +423,7 @@ func main() {
 		ctype := ""
 		target := "http://" + wd.base + uri
 		form := "query"
-		if method == "GET" || method == "DELETE" || (!scenario && rng.Intn(4) == 0) {
+		if method == "GET" || method == "DELETE" || (!scenario && !spendReq && rng.Intn(4) == 0) {
 			target += "?" + vals.Encode()
 		} else if strings.HasPrefix(uri, "/api/v2") || uri == "/api/v1/wallet/transaction" || uri == "/api/v1/injectTransaction" {
 			form = "json"
@@ -402,9 +439,27 @@ func main() {
 					m[k] = v[0]
 				}
 			}
-			if uri == "/api/v1/wallet/transaction" && rng.Intn(2) == 0 {
+			if spendReq {
+				m = map[string]interface{}{"hours_selection": map[string]interface{}{"type": "auto", "mode": "share", "share_factor": "0.5"},
+					"wallet_id": pick(wd.wallets), "to": []map[string]string{{"address": pick(wd.addrs), "coins": pick([]string{"0.001", "0.5", "1"})}}}
+				if rng.Intn(2) == 0 {
+					m["unsigned"] = true
+				}
+				if rng.Intn(3) == 0 {
+					m["password"] = "pw"
+				}
+			} else if uri == "/api/v1/wallet/transaction" && rng.Intn(2) == 0 {
 				m = map[string]interface{}{"hours_selection": map[string]interface{}{"type": "auto", "mode": "share", "share_factor": pick([]string{"0.5", "2", "x"})},
-					"wallet_id": value(wd, "wallet_id"), "to": []map[string]string{{"address": value(wd, "address"), "coins": pick([]string{"1", "0.001", "-1", "1e99", "abc"})}}}
+					"wallet_id": value(wd, "wallet_id"), "to": []map[string]string{{"address": value(wd, "address"), "coins": pick([]string{"1", "0.001", "0.5", "-1", "1e99", "abc", "0.0000001"})}}}
+				if rng.Intn(3) == 0 {
+					m["unsigned"] = true
+				}
+				if rng.Intn(3) == 0 {
+					m["password"] = pick([]string{"pw", "wrong", ""})
+				}
+				if rng.Intn(4) == 0 {
+					m["change_address"] = value(wd, "address")
+				}
 			}
 			body, _ = json.Marshal(m)
 			if rng.Intn(10) == 0 {
@@ -466,9 +521,13 @@ func main() {
 	}
 	// ---- the probe: one request with a huge count, answered (with an error or a result) or not within 6 s
 	probes := []struct{ name, uri, form string }{
-		{"scan-num", "/api/v1/wallet/scan", "id=w1.wlt&num=9223372036854775807"},
-		{"newaddress-num", "/api/v1/wallet/newAddress", "id=w1.wlt&num=9223372036854775807"},
+		{"scan-num", "/api/v1/wallet/scan", "id=wp.wlt&num=9223372036854775807"},
+		{"newaddress-num", "/api/v1/wallet/newAddress", "id=wp.wlt&num=9223372036854775807"},
 		{"create-scan", "/api/v1/wallet/create", "seed=probe+seed&label=p&type=deterministic&scan=9223372036854775807"},
+	}
+	// a probe that is not answered keeps the wallet service busy for good, so the one that goes first rotates with the seed
+	for k := int(seed % 3); k > 0; k-- {
+		probes = append(probes[1:], probes[0])
 	}
 	for _, probe := range probes {
 		fmt.Fprintln(os.Stderr, "SENDING POST", probe.uri, probe.form)
@@ -483,9 +542,13 @@ func main() {
 				pr["dropped"] = true
 			}
 		} else {
-			_, rerr := ioutil.ReadAll(resp.Body)
+			pb, rerr := ioutil.ReadAll(resp.Body)
 			resp.Body.Close()
 			pr["status"], pr["complete"] = resp.StatusCode, rerr == nil
+			if len(pb) > 160 {
+				pb = pb[:160]
+			}
+			pr["err"] = strings.TrimSpace(string(pb))
 		}
 		must(enc.Encode(pr))
 		w.Flush()
